@@ -126,3 +126,17 @@ def valid_bins_at(off, start, end, clen, c):
 def fixed_bins_at(off, start, end, clen, c, b):
     return And(b >= 1, forall(off[c], off[c + 1], lambda k: And(
         start[k] == (k - off[c]) * b, end[k] == Min(start[k] + b, clen[c]))))
+
+
+def bin_chrom_flat(nchrom, off, chrom):
+    """flat form of 'bins/chrom agrees with the chromosome offsets': every bin lies inside the
+    offset range of its own chromosome (equivalent to chrom_of_bin_ok for increasing offsets)"""
+    return forall(0, L(chrom), lambda k: And(0 <= chrom[k], chrom[k] < nchrom, off[chrom[k]] <= k, k < off[chrom[k] + 1]))
+
+
+def bins_grouped(nchrom, off, chrom, nb):
+    """the part of valid_bins that grouping by chromosome needs: offsets tile [0, nb) with
+    non-empty groups and every bin lies in the group of its chromosome (flat, no nesting)"""
+    return And(nchrom >= 0, L(off) == nchrom + 1, L(chrom) == nb, off[0] == 0, off[nchrom] == nb,
+               forall2(0, nchrom + 1, 0, nchrom + 1, lambda c1, c2: Implies(c1 < c2, off[c1] < off[c2])),
+               bin_chrom_flat(nchrom, off, chrom))
